@@ -212,9 +212,11 @@ def run(ctx):
     if len(pops) != 1:
         bad = "shape"
     else:
-        wc = [d for d, i in wq.local_by_did.items() if i["name"] == "wake_count"]
-        ov = [d for d, i in wq.local_by_did.items() if i["name"] == "out"]
-        from rules import is_param_load
+        from rules import is_param_load, returned_local, locals_defined_by, locals_addressed_in
+        wc = [returned_local(wq)] if returned_local(wq) is not None else []
+        ov = locals_defined_by(wq, lambda m: m is pops[0]) or locals_addressed_in(wq, pops[0])
+        if not wc or not ov:
+            raise AnalysisBroken("wake_from_mpmc_queue: result / wake count locals not found")
         ispop = lambda n: n is pops[0] or (n.k == "BinaryOperator" and n.op == "=" and n.contains(pops[0]))
         at = atom_from([(ispop, 0), (is_var_load(ov[0]), 0), (is_var_load(wc[0]), 0), (is_param_load(wq, "count"), 0)])
         if reach(wq, pops, at, start=pops[0]):
